@@ -15,6 +15,8 @@ CALL = {   # how to call a lambda with this parameter list (to obtain the lambda
     'none': ((), {}), 'x': ((0,), {}), 'y': ((0,), {}), 'xy': ((0, 0), {}), 'xd': ((), {}), 'va': ((), {}),
     'kw': ((), {}), 'po': ((0,), {}), 'ko': ((), {'x': 0}), 'xz': ((0,), {}),
 }
+NAMES = {'none': (), 'x': ('x',), 'y': ('y',), 'xy': ('x', 'y'), 'xd': ('x',), 'va': ('*a',), 'kw': ('**k',),
+         'po': ('x',), 'ko': ('*', 'x'), 'xz': ('x', 'z')}    # parameter names, to keep reductions clash-free
 SIG_NAME = {'none': 'noargs', 'x': 'x', 'y': 'y', 'xy': 'x-y', 'xd': 'x-default', 'va': 'varargs', 'kw': 'varkw',
             'po': 'x-posonly', 'ko': 'x-kwonly', 'xz': 'x-z-default'}
 
@@ -177,30 +179,32 @@ def violation_class(sig):
     return sig.split(':')[2]
 
 
-def reductions(key):
+def reductions(key, i):
+    """simpler configurations, each with the new index of the object under test (1-based)"""
     cx, par, brk, span, sig = key
     n = len(par)
     if cx != 'mod':
-        yield ('mod', par, brk, span, sig)
-    for k in range(n - 1, -1, -1):                # drop a lambda that has no lambda inside it
-        if (k + 1) not in par and n > 1:
-            newpar = tuple(p - 1 if p > k + 1 else p for i, p in enumerate(par) if i != k)
+        yield ('mod', par, brk, span, sig), i
+    for k in range(n - 1, -1, -1):                # drop another lambda that has no lambda inside it
+        if (k + 1) not in par and n > 1 and k + 1 != i:
+            newpar = tuple(p - 1 if p > k + 1 else p for q, p in enumerate(par) if q != k)
 
             def cut(t):
-                return tuple(x for i, x in enumerate(t) if i != k)
-            yield (cx, newpar, cut(brk), cut(span), cut(sig))
+                return tuple(x for q, x in enumerate(t) if q != k)
+            yield (cx, newpar, cut(brk), cut(span), cut(sig)), (i - 1 if k + 1 < i else i)
     for k in range(n):
         if brk[k] != 'same':
-            yield (cx, par, brk[:k] + ('same',) + brk[k + 1:], span, sig)
+            yield (cx, par, brk[:k] + ('same',) + brk[k + 1:], span, sig), i
         if span[k] != 'one':
-            yield (cx, par, brk, span[:k] + ('one',) + span[k + 1:], sig)
-        if par[k] != 0:                          # lift a nested lambda without children of its own to the top level
+            yield (cx, par, brk, span[:k] + ('one',) + span[k + 1:], sig), i
+        if par[k] != 0:                          # lift the last lambda, if nested and childless, to the top level
             if (k + 1) not in par and k == n - 1:
-                yield (cx, par[:k] + (0,), brk, span, sig)
-        if sig[k] != 'x':
-            yield (cx, par, brk, span, sig[:k] + ('x',) + sig[k + 1:])
-        if sig[k] not in ('x', 'none'):
-            yield (cx, par, brk, span, sig[:k] + ('none',) + sig[k + 1:])
+                yield (cx, par[:k] + (0,), brk, span, sig), i
+        # a parameter list that shares its names with no other lambda may lose its parameters altogether
+        # (never rename: a reduction must remove features, not create a new name clash)
+        others = [NAMES[sig[j]] for j in range(n) if j != k]
+        if sig[k] != 'none' and NAMES[sig[k]] not in others and NAMES['none'] not in others:
+            yield (cx, par, brk, span, sig[:k] + ('none',) + sig[k + 1:]), i
 
 
 def describe(key, rec):
@@ -228,27 +232,31 @@ def describe(key, rec):
 
 
 class Classifier:
+    """Per lambda object: greedy descent through enumerated configurations in which the same object fails in the
+    same way; memoised, deterministic."""
+
     def __init__(self, verdicts, recs_by_key):
-        self.verdicts = verdicts        # key -> None | worst violation class
+        self.verdicts = verdicts        # (key, i) -> None | violation class
         self.recs = recs_by_key
         self.memo = {}
         self.lookups = 0
         self.misses = 0
 
-    def minimal(self, key):
-        path, cur = [], key
+    def minimal(self, key, i):
+        cls = self.verdicts[(key, i)]
+        path, cur = [], (key, i)
         while True:
             if cur in self.memo:
                 res = self.memo[cur]
                 break
             path.append(cur)
             nxt = None
-            for cand in reductions(cur):
+            for cand in reductions(*cur):
                 self.lookups += 1
                 if cand not in self.verdicts:
                     self.misses += 1
                     continue
-                if self.verdicts[cand] is not None:
+                if self.verdicts[cand] == cls:
                     nxt = cand
                     break
             if nxt is None:
@@ -259,6 +267,6 @@ class Classifier:
             self.memo[p] = res
         return res
 
-    def signature(self, key, cls):
-        m = self.minimal(key)
-        return 'c15:lambda:%s:%s' % (cls, describe(m, self.recs[m])), m
+    def signature(self, key, i):
+        m, mi = self.minimal(key, i)
+        return 'c15:lambda:%s:%s' % (self.verdicts[(key, i)], describe(m, self.recs[m])), m
